@@ -277,3 +277,107 @@ theorem quiescent_returned {n : Nat} {c : Tid} {s : St} (h : Reachable n c s) (h
     rw [hc] at hs; simp [step, hsig] at hs
   · exact hc
 end ApplyP
+
+namespace ApplyP
+/-- a thread reaches the subtraction only with a non-zero count -/
+def SubPos (pc : Pc) : Prop := ∀ d, pc = .sub d → 0 < d
+
+theorem step_subpos {n : Nat} {c : Tid} {sh : Sh} {t : Tid} {pc : Pc} {sh' : Sh} {pc' : Pc}
+    (h : (sh', pc') ∈ step n c sh t pc) : SubPos pc' := by
+  intro d e; subst e
+  cases pc with
+  | idle => simp [step] at h
+  | claimed idx done =>
+    simp only [step] at h
+    split at h
+    · simp at h
+    · split at h
+      · simp at h; obtain ⟨_, h2⟩ := h; split at h2 <;> cases h2
+      · simp at h; obtain ⟨_, h2⟩ := h; cases h2; omega
+  | running idx done => simp [step] at h
+  | ended done => simp [step] at h
+  | sub done =>
+    simp only [step] at h
+    split at h
+    · simp at h
+    · simp at h; obtain ⟨_, h2⟩ := h; split at h2 <;> cases h2
+  | signal => simp [step] at h; obtain ⟨_, h2⟩ := h; split at h2 <;> cases h2
+  | out => simp [step] at h
+  | waitEv =>
+    simp only [step] at h
+    split at h <;> simp at h
+  | returned => simp [step] at h
+
+theorem subpos_reachable {n : Nat} {c : Tid} {s : St} (h : Reachable n c s) : ∀ t, SubPos (s.pcs t) := by
+  induction h with
+  | init => intro t d e; simp at e
+  | step _ hs ih =>
+    cases hs with
+    | mk t sh' pc' h =>
+      intro t'
+      by_cases e : t' = t
+      · subst e; simpa using step_subpos h
+      · simpa [e] using ih t'
+
+/-- **The completion event is signalled by at most one thread, once**: never two threads at the signalling call, and nobody
+    there once it has been signalled (`_dispatch_thread_event_signal` on an event that is already signalled, or after the
+    caller destroyed it, would be a use of a dead stack object). -/
+theorem signal_once {n : Nat} {c : Tid} {s : St} (h : Reachable n c s) :
+    s.sh.subs.length ≤ 1 ∧ (s.sh.signalled = true → s.sh.subs = []) := by
+  induction h with
+  | init => simp
+  | @step s s' hr hs ih =>
+    have i := inv_reachable hr
+    have hsp := subpos_reachable hr
+    cases hs with
+    | mk t sh' pc' h =>
+      have hquiet : s.sh.pend ≠ [] → s.sh.signalled = false ∧ s.sh.subs = [] := by
+        intro hp
+        have hlen : 0 < s.sh.pend.length := List.length_pos_iff.mpr hp
+        have htodo := i.g.todo
+        refine ⟨?_, ?_⟩
+        · cases hsg : s.sh.signalled with
+          | false => rfl
+          | true => have := i.g.sigZero (Or.inl hsg); omega
+        · cases hsb : s.sh.subs with
+          | nil => rfl
+          | cons a l => have := i.g.sigZero (Or.inr (by rw [hsb]; simp)); omega
+      generalize hpc : s.pcs t = pc at h
+      cases pc with
+      | idle => simp [step] at h; obtain ⟨rfl, _⟩ := h; simpa using ih
+      | claimed idx done =>
+        simp only [step] at h
+        split at h
+        · simp at h; obtain ⟨rfl, _⟩ := h; simpa using ih
+        · split at h <;> (simp at h; obtain ⟨rfl, _⟩ := h; simpa using ih)
+      | running idx done => simp [step] at h; obtain ⟨rfl, _⟩ := h; simpa using ih
+      | ended done => simp [step] at h; obtain ⟨rfl, _⟩ := h; simpa using ih
+      | sub done =>
+        have hd : 0 < done := hsp t done hpc
+        have hcnt := (i.l t).pend
+        rw [hpc] at hcnt; simp only [doneOf] at hcnt
+        have hne : s.sh.pend ≠ [] := by
+          intro e; rw [e] at hcnt; simp at hcnt; omega
+        obtain ⟨hs1, hs2⟩ := hquiet hne
+        simp only [step] at h
+        split at h
+        · simp at h; obtain ⟨rfl, _⟩ := h; simp [hs1, hs2]
+        · simp at h; obtain ⟨rfl, _⟩ := h; simp [hs1, hs2]
+      | signal =>
+        have hmem : t ∈ s.sh.subs := (i.l t).sub.mpr hpc
+        simp [step] at h; obtain ⟨rfl, _⟩ := h
+        have hone : s.sh.subs = [t] := by
+          cases hsb : s.sh.subs with
+          | nil => rw [hsb] at hmem; simp at hmem
+          | cons a l =>
+            have hl := ih.1; rw [hsb] at hl hmem; simp at hl
+            subst hl; simp at hmem; rw [hmem]
+        simp [hone, rm]
+      | out => simp [step] at h
+      | waitEv =>
+        simp only [step] at h
+        split at h
+        · simp at h; obtain ⟨rfl, _⟩ := h; simpa using ih
+        · simp at h
+      | returned => simp [step] at h
+end ApplyP
